@@ -100,6 +100,7 @@ def parse_function(header, lines):
 
 
 CONST_ITEMS = {}
+CLOSURES = {}   # "{closure@file:l:c: l:c}" -> Function
 
 
 def load_consts(text):
@@ -141,6 +142,13 @@ def load(path):
         except MirError:
             continue
         fns.setdefault(f.name, f)
+    CLOSURES.clear()
+    for f in fns.values():
+        if f.args:
+            t = f.locals.get(f.args[0], "")
+            m = re.match(r"&?(?:mut )?(\{closure@[^}]*\})", t)
+            if m:
+                CLOSURES[m.group(1)] = f
     return fns
 
 
@@ -509,6 +517,13 @@ class Interp:
         if cm and cm.group(1).rsplit("::", 1)[-1][0].isupper() and cm.group(1) not in self.BINOPS:
             args = [self.eval_operand(st, x) for x in split_top(cm.group(2), ",") if x.strip()]
             return self.construct(st, cm.group(1).rsplit("::", 1)[-1], args)   # tuple struct
+        clm = re.match(r"\{closure@[^}]*\} \{(.*)\}$", rhs)
+        if clm:
+            fields = []
+            for fld in split_top(clm.group(1), ","):
+                if ":" in fld:
+                    fields.append(self.eval_operand(st, fld.split(":", 1)[1]))
+            return Tup(fields)
         sm = re.match(r"([\w:<>&', ]+?) \{(.*)\}$", rhs)
         if sm:
             fields = []
@@ -622,7 +637,9 @@ class Interp:
         name = norm_callee(callee)
         ret_sort = self.local_sort(dst) if re.fullmatch(r"_\d+", dst.strip()) else U
         ret = self.call_semantics(st, name, callee, args, ret_sort)
-        self.emit(st, Event("call", name, args, list(st["pc"] + st["pc_aux"]), ret))
+        ev = Event("call", name, args, list(st["pc"] + st["pc_aux"]), ret)
+        ev.raw = callee
+        self.emit(st, ev)
         if ret is not None:
             self.write_place(st, dst, ret)
 
@@ -699,6 +716,28 @@ class Interp:
             is_result = "Result" in raw.split(" as FromResidual")[0]
             st["pc_aux"].append(c.disc(r) == (1 if is_result else 0))
             return r
+        fm = re.match(r"Option::<(.*)>::filter::<(\{closure@[^}]*\})>$", raw)
+        if fm and fm.group(2) in CLOSURES and isinstance(args[1], Tup):
+            # Some(x) if the predicate closure holds for x, else None – the closure body is interpreted in place
+            psort = sort_of(fm.group(1))
+            src = self.as_u(a0)
+            payload = c.uf("proj_Some_0", [U], psort)(src)
+            cf = CLOSURES[fm.group(2)]
+            sub = Interp(cf, ctx=c, loop_bound=1, pure=self.pure, slices=self.slices)
+            sub.solver = self.solver
+
+            def cinit(_it, sst, _t=args[1], _p=payload, _cf=cf):
+                sst["env"][_cf.args[0]] = _t
+                if len(_cf.args) > 1:
+                    sst["env"][_cf.args[1]] = _p
+            rs = [r for r in sub.run(cinit) if r.status == "return"]
+            self.queries += sub.queries
+            if len(rs) == 1 and z3.is_bool(rs[0].ret):
+                st["pc_aux"] += list(rs[0].pc)
+                o = c.fresh(U, "filter")
+                st["pc_aux"].append(c.disc(o) == z3.If(z3.And(c.disc(src) == 1, rs[0].ret), z3.BitVecVal(1, 64), z3.BitVecVal(0, 64)))
+                st["pc_aux"].append(c.uf("proj_Some_0", [U], psort)(o) == payload)
+                return o
         if name.endswith("Option::ok_or") or re.search(r"Option::<.*>::ok_or$", raw) or name == "Option::ok_or":
             src = self.as_u(a0)
             r = c.fresh(U, "ok_or")
